@@ -5,6 +5,7 @@ behaviours are concretised with, and the judge module.  The clause prefix decide
 property a failing clause belongs to, so several properties share campaigns: each check
 runs the campaigns that exercise the calls its clauses talk about.
 """
+import collections
 import json
 import os
 import random
@@ -545,20 +546,61 @@ def run_campaign(camp, tier, seed, wd):
         sampled = True
     stimuli = P.to_driver_stimuli(behaviours, camp["palettes"], seed, all_palettes=False,
                                   tolerant=camp.get("tolerant", False))
+    del behaviours
     for s in stimuli:
         s["judge"] = camp["judge"]
     t1 = time.time()
-    traces = P.replay(stimuli, wd)
-    t2 = time.time()
-    j = P.judge(traces, wd, module=camp["judge"][0], cfg=camp["judge"][1], name="tr_" + camp["name"])
-    summary = {"name": camp["name"], "behaviours_enumerated": total, "behaviours_replayed": len(behaviours),
+    # replay and judge in slices: the recorded traces of a slice (every live table before and after every call) are
+    # dropped once judged; only their counters and the traces with a failing clause are kept
+    SLICE = 12000
+    stats = new_trace_stats()
+    kept, fails = [], []
+    jtot = {"states": 0, "transitions": 0, "cnt": 0, "clauses": collections.Counter()}
+    replay_s = judge_s = 0.0
+    for a in range(0, len(stimuli), SLICE):
+        ta = time.time()
+        traces = P.replay(stimuli[a:a + SLICE], wd)
+        tb = time.time()
+        j = P.judge(traces, wd, module=camp["judge"][0], cfg=camp["judge"][1], name="tr_" + camp["name"])
+        judge_s += time.time() - tb
+        replay_s += tb - ta
+        add_trace_stats(stats, traces)
+        bad = {f["id"] for f in j["fails"]}
+        kept.extend(t for t in traces if t["id"] in bad)
+        fails.extend(j["fails"])
+        for k_ in ("states", "transitions", "cnt"):
+            jtot[k_] += j[k_]
+        jtot["clauses"].update(j["clauses"])
+        del traces
+    jtot["fails"] = fails
+    summary = {"name": camp["name"], "behaviours_enumerated": total, "behaviours_replayed": len(stimuli),
                "sampled": sampled, "gen": gstats,
                "gen_states": sum(g["states"] for g in gstats), "gen_transitions": sum(g["transitions"] for g in gstats),
-               "traces": len(traces), "judge_states": j["states"], "fails": len(j["fails"]),
-               "gen_s": round(t1 - t0, 1), "replay_s": round(t2 - t1, 1), "judge_s": round(time.time() - t2, 1)}
+               "traces": stats["traces"], "judge_states": jtot["states"], "fails": len(fails),
+               "gen_s": round(t1 - t0, 1), "replay_s": round(replay_s, 1), "judge_s": round(judge_s, 1)}
     print("  campaign %-28s behaviours=%d replayed=%d gen=%.1fs replay=%.1fs judge=%.1fs fails=%d"
-          % (camp["name"], total, len(behaviours), t1 - t0, t2 - t1, time.time() - t2, len(j["fails"])), flush=True)
-    return {"summary": summary, "stimuli": stimuli, "traces": traces, "judge": j}
+          % (camp["name"], total, len(stimuli), t1 - t0, replay_s, judge_s, len(fails)), flush=True)
+    return {"summary": summary, "stimuli": stimuli, "traces": kept, "judge": jtot, "trace_stats": stats}
+
+
+def new_trace_stats():
+    return {"traces": 0, "events": 0, "palettes": collections.Counter(), "calls": collections.Counter(),
+            "rep": collections.Counter()}
+
+
+def add_trace_stats(stats, traces):
+    for t in traces:
+        stats["traces"] += 1
+        stats["events"] += len(t["events"])
+        stats["palettes"]["+".join(t["pal"]) if isinstance(t.get("pal"), list) else str(t.get("pal"))] += 1
+        for ev in t["events"]:
+            stats["calls"][ev.get("call", ev.get("act", "?"))] += 1
+            for tb in ev.get("pre", {}).values():
+                rp = tb.get("rep") if isinstance(tb, dict) else None
+                if rp:
+                    stats["rep"]["%s:%s|%s|zeros=%s" % (ev["call"], rp["fmt"], "sorted" if rp["sorted"] else "unsorted",
+                                                        "y" if rp["stored_zeros"] else "n")] += 1
+    return stats
 
 
 def rejudge(stim, wd):
